@@ -206,7 +206,7 @@ def rule_PF(facts):
                                 sample={'return': show(ret)}))
     # (b) prefetch_read_NTA (and private helpers it hands the pointer to): offset only into wrapping pointer arithmetic,
     #     pointer only into the prefetch intrinsic, nothing dereferenced, nothing returned
-    pf = FA.fns.get('utils::prefetch_read_NTA')
+    pf = FA.fns.get('utils::prefetch_read_NTA') or next((g for q, g in FA.fns.items() if q.endswith('::prefetch_read_NTA') and q.startswith('utils')), None)
     pf_closure = []
     if pf is None:
         out.append(Inst('R-PF', 'R-PF|b|prefetch_read_NTA', 'violation', '', 'function not found (anchor lost)', props))
